@@ -55,6 +55,18 @@ class SrcInfo:
                 variants.append((vm.group(1), disc))
                 disc += 1
             self.enums.setdefault(m.group(1), []).append(variants)
+        for m in re.finditer(r"\bstruct\s+([A-Za-z_0-9]+)\s*(<[^{(;]*>)?\s*(?:where[^{]*)?\{", src):
+            try:
+                close = match_close(src, m.end() - 1)
+            except Exception:
+                continue
+            names = []
+            for part in split_top(src[m.end():close]):
+                part = re.sub(r"#\[[^\]]*\]", "", part).strip()
+                fm = re.match(r"(?:pub(?:\([a-z]+\))?\s+)?([A-Za-z_0-9]+)\s*:", part)
+                if fm:
+                    names.append(fm.group(1))
+            self.structs.setdefault(m.group(1), []).append(names)
         for m in re.finditer(r"\bfn\s+([A-Za-z_0-9]+)\s*<", src):
             try:
                 close = match_close(src, m.end() - 1)
@@ -69,6 +81,12 @@ class SrcInfo:
                     p = p[6:]
                 params.append(re.match(r"([A-Za-z_0-9]+)", p).group(1))
             self.fn_generics.setdefault(m.group(1), []).append(params)
+
+    def struct_fields(self, name):
+        c = self.structs.get(name, [])
+        if c and all(x == c[0] for x in c):
+            return c[0]
+        return None
 
     def enum_variants(self, name, variant=None):
         cands = self.enums.get(name, [])
